@@ -141,7 +141,8 @@ impl Runner<'_> {
 
     fn end<T>(&mut self, proc_: u32, res: &Outcome<T>) {
         self.w.flush_ops(self.out, self.probe_ops);
-        self.w.emit(self.out, json!({"e":"end","proc":proc_,"res":res.class(),"msg":res.msg()}));
+        let refused = res.msg().to_lowercase().contains("append-only");
+        self.w.emit(self.out, json!({"e":"end","proc":proc_,"res":res.class(),"msg":res.msg(),"ao_refused":refused}));
         if self.probe_steps && !self.probe_ops {
             let map = self.w.shadow.clone();
             let pv = self.w.probe(&map);
@@ -227,6 +228,9 @@ impl Runner<'_> {
                     r.prune(&po, plan)
                 });
                 self.end(p, &res);
+            }
+            "remember" => {
+                self.w.emit(self.out, json!({"e":"remember"}));
             }
             "damage" => {
                 // remove stored files behind the library's back: kind = pack_data | pack_tree | index | snapshot
@@ -344,6 +348,15 @@ impl Runner<'_> {
                     let ropts = rustic_core::RewriteOptions::default().forget(forget).dry_run(dry);
                     r.rewrite_snapshots_and_trees(snaps, &ropts, &topts).map(|v| v.len())
                 });
+                self.end(p, &res);
+            }
+            "prune_plan" => {
+                // planning only: the library's "dry run" of prune
+                let o = st.get("opts").cloned().unwrap_or(json!({}));
+                let po = prune_opts(&o);
+                let p = self.begin("prune_plan", json!({"dry":true}));
+                let h = self.w.store.handle(p);
+                let res = scn::guard(|| scn::open(&h, &key)?.prune_plan(&po).map(|_| ()));
                 self.end(p, &res);
             }
             "check" => {
